@@ -318,3 +318,58 @@ Print Assumptions C16_monos_valid_refl.
 Print Assumptions C16_D17_cyclopropane.
 Print Assumptions C16_D18_limit.
 Print Assumptions C16_gml_example.
+
+(** * Additions: the empty reactant, and sub-list relations between option combinations *)
+From FGV Require Import Proofs.RuleExtra.
+
+(* companion of C16_apply_rule_value for g = [] with connected_only=True: the rule's left side
+   embeds into the empty graph iff the rule graph is empty (the empty mapping); the call then
+   reaches nx.is_connected on the null graph and raises NetworkXPointlessConcept (ARNullGraph),
+   unless a limit n <= 0 stops the loop first; for a non-empty rule the result is [] *)
+Theorem C16_empty_reactant : forall rcg monos wls n unique,
+  wf rcg -> monos_valid (rl (reaction_rule rcg)) [] monos -> List.length wls = List.length monos ->
+  (all_monos (rl (reaction_rule rcg)) [] <> [] <-> rcg = [])
+  /\ apply_rule [] (reaction_rule rcg) monos wls n unique true =
+     match rcg with
+     | [] => match n with
+             | Some k => if k <=? 0 then AROk [] else ARNullGraph
+             | None => ARNullGraph
+             end
+     | _ :: _ => AROk []
+     end.
+Proof. exact empty_reactant. Qed.
+
+(* [sublist l1 l2]: l1 is obtained from l2 by deleting elements (same relative order).
+   unique=True, with any limit, returns a sub-list of what unique=False returns without a limit,
+   for the same monos / digests / connected_only. (With the same limit n on both sides the
+   statement would be false: the k-th kept result can lie beyond position n of the longer list.) *)
+Theorem C16_unique_sublist : forall g rcg monos wls,
+  wf g -> wf rcg -> monos_valid (rl (reaction_rule rcg)) g monos ->
+  List.length wls = List.length monos ->
+  forall n co,
+  (co = true -> g <> []) ->
+  exists ru rf,
+    apply_rule g (reaction_rule rcg) monos wls n true co = AROk ru
+    /\ apply_rule g (reaction_rule rcg) monos wls None false co = AROk rf
+    /\ sublist ru rf.
+Proof. exact unique_sublist. Qed.
+
+(* connected_only (unique=False, any limit) returns a sub-list of the one-result-per-embedding
+   list, and without a limit exactly the results whose raw ITS graph is connected *)
+Theorem C16_connected_sublist : forall g rcg monos wls,
+  wf g -> wf rcg -> monos_valid (rl (reaction_rule rcg)) g monos ->
+  List.length wls = List.length monos ->
+  forall n,
+  g <> [] ->
+  exists rc rall,
+    apply_rule g (reaction_rule rcg) monos wls n false true = AROk rc
+    /\ apply_rule g (reaction_rule rcg) monos wls None false false = AROk rall
+    /\ rall = map (its_graph g (reaction_rule rcg)) monos
+    /\ sublist rc rall
+    /\ (n = None ->
+        rc = map snd (filter (fun c : cand => connb (snd (fst c))) (cands_of g (reaction_rule rcg) monos wls))).
+Proof. exact connected_sublist. Qed.
+
+Print Assumptions C16_empty_reactant.
+Print Assumptions C16_unique_sublist.
+Print Assumptions C16_connected_sublist.
